@@ -9,7 +9,7 @@ import os
 import sys
 
 from sim import climodel, seeds, wire, world
-from sim.world import FAULT_KINDS, INPUT_SIDE, WRITE_PHASE
+from sim.world import FAULT_KINDS, INPUT_SIDE, WRITE_PHASE, is_transient
 
 
 def _b(x, limit=160):
@@ -316,6 +316,16 @@ class WorldJob(object):
         info = {'visits': [], 'P': [], 'complete': False}
         pre_f, post_f = files_of(pre), files_of(post)
         fired = rec['fired'][0] if rec['fired'] else None
+        if faulty and fired is not None and is_transient(fired['kind']):
+            # a retryable error (EINTR / EAGAIN / EBUSY, once): a command that repeats the call and carries on has met no
+            # failure at all (it may still stop later, at a file that really fails).  Such a run is held to exactly what a
+            # fault-free run is held to; only if it does not pass as one is it judged as a run that failed at the fault.
+            nv = len(self.violations)
+            info = self.judge(pre, dict(rec, fired=[]), post, env, run_desc, faulty=False, ignore=ignore)
+            if len(self.violations) == nv:
+                self.probe('transient_fault_absorbed_by_retry')
+                return info
+            del self.violations[nv:]
         if len(rec['fired']) > 1:
             self.notes.append('more than one fault fired in a run; judged by the first')
         fkey = None
